@@ -3,7 +3,7 @@
    Only theorem statements closed by `exact`, each followed by Print Assumptions. *)
 From Coq Require Import List Arith.
 From Coq Require Import ZArith Lia.
-From TT Require Import RingSig Instances SumN Mat Core OrdRing RankChop RankChopP Skel SkelP FrobP OrthP GaugeP MatOps Reduce Local LocalP StationaryP.
+From TT Require Import RingSig Instances SumN Mat Core OrdRing RankChop RankChopP Skel SkelP FrobP OrthP GaugeP MatOps Reduce Local LocalP StationaryP AmenMMP.
 Import ListNotations.
 Section C11.
 Context {T : Type} {OO : OrdOps T} {OL : OrdLaws T}.
@@ -96,6 +96,24 @@ Theorem C11_supercore_blind_component (ypre ypost xpre xpost : tt R) (Apre Apost
 Proof. exact (supercore_blind_component ypre ypost xpre xpost Apre Apost c1 c2 x1 x2 ra rc l m1 m2 L u v). Qed.
 End DmrgSupercore.
 
+(* ---- operator-operator products (amen_mm): Model/Local.v phi_fwd4 / phi_bck4 / local_AB, tied exactly to `_compute_phi_fwd_AB`, `_compute_phi_bck_AB`,
+   `_local_AB` for column modes of any size.  The core the step assigns is the projection of the DENSE product A B on the frame of the approximation X:
+   the frame element carries the cores of X outside position k, the unit core (r, m, R) with column index n at position k, and is paired with A B column
+   multi-index by column multi-index (js1 before position k, n at it, js2 after). ---- *)
+Section AmenMM.
+Context {R : Type} {RO : RingOps R} {RL : RingLaws R}.
+Theorem C11_amen_mm_local_update (Xpre Xpost Apre Apost Bpre Bpost : ttm R) (ck bk : core4 R) ra rb r m n R0 :
+  length Apre = length Xpre -> length Bpre = length Xpre -> length Apost = length Xpost -> length Bpost = length Xpost ->
+  r < ra -> R0 < rb -> m < mm ck -> n < nm bk -> mm bk = nm ck ->
+  wf4 (Xpre ++ unit4 ra (mm ck) (nm bk) rb r m n R0 :: Xpost) -> wf4 (Apre ++ ck :: Apost) -> wf4 (Bpre ++ bk :: Bpost) ->
+  e4 (local_AB (phiF4 Xpre Apre Bpre ones3) ck bk (phiB4 Xpost Apost Bpost) ra rb) r m n R0
+  = sum_idx (shapeN Bpre) (fun js1 => sum_idx (shapeN Bpost) (fun js2 =>
+      sum_idx (shapeM (Apre ++ ck :: Apost)) (fun is_ => sum_idx (shapeN (Apre ++ ck :: Apost)) (fun ks =>
+        rmul (rmul (rconj (entry (cols Xpre js1 ++ unit3 ra (mm ck) rb r m R0 :: cols Xpost js2) is_)) (entry4 (Apre ++ ck :: Apost) is_ ks))
+             (entry4 (Bpre ++ bk :: Bpost) ks (js1 ++ n :: js2)))))).
+Proof. exact (local_AB_galerkin Xpre Xpost Apre Apost Bpre Bpost ck bk ra rb r m n R0). Qed.
+End AmenMM.
+
 (* the hypotheses of C11_amen_update_exact are satisfiable: y = x = [Q; c] with Q the 1 x 2 x 2 core whose slices are the rows of the identity
    (a left-orthogonal core), c = [[3],[5]; [-2],[7]], A the identity operator *)
 Example C11_amen_update_exact_instance :
@@ -127,3 +145,4 @@ Print Assumptions C11_amen_local_update.
 Print Assumptions C11_amen_update_exact.
 Print Assumptions C11_supercore_galerkin.
 Print Assumptions C11_supercore_blind_component.
+Print Assumptions C11_amen_mm_local_update.
